@@ -45,18 +45,31 @@ def register_copy(db):
 
 
 def copy_harness(I, c):
-    import z3
-    from ..symexec import PyRec, SAdt, SStr, SBool, SNone, Obligation
-    from ..extract import strip_docstring
+    from ..symexec import SAdt, SStr, SBool, SNone
     fields = {"name": SStr(I.fresh("Str", "name")), "add_ws": SBool(I.fresh("Bool", "add_ws")),
               "attrs": SAdt("AttrList", I.fresh("AttrList", "attrs"), fresh=False, pyclass="TagAttrDict"),
               "children": SAdt("NodeList", I.fresh("NodeList", "children"), fresh=False, pyclass="TagList"), "prev_displayhook": SNone()}
+    return copy_harness_for(I, c, "Tag", fields)
+
+
+def jsx_copy_harness(I, c):
+    from ..symexec import SAdt, SStr
+    fields = {"name": SStr(I.fresh("Str", "name")),
+              "attrs": SAdt("ArgDict", I.fresh("ArgDict", "attrs"), fresh=False, pyclass="JSXTagAttrDict"),
+              "children": SAdt("NodeList", I.fresh("NodeList", "children"), fresh=False, pyclass="TagList")}
+    return copy_harness_for(I, c, "JSXTag", fields)
+
+
+def copy_harness_for(I, c, cls, fields):
+    import z3
+    from ..symexec import PyRec, SAdt, SStr, SBool, SNone, Obligation
+    from ..extract import strip_docstring
     fn = I.src.find(c.name)
     saved = (I.module, I.fn_qual)
     I.module, I.fn_qual = I.src.split(c.name)[0], c.name
 
     def run():
-        I.st.env = {"self": PyRec("Tag", dict(fields), fresh=False)}
+        I.st.env = {"self": PyRec(cls, dict(fields), fresh=False)}
         I.loop_ordinal = I.comp_ordinal = 0
         I.exec_block(strip_docstring(fn.body))
         return SNone()
@@ -66,15 +79,16 @@ def copy_harness(I, c):
         I.module, I.fn_qual = saved
     obs = list(I.obligations)
     I.obligations = []
+    short = c.name.replace("htmltools.", "")
     for pi, p in enumerate(paths):
-        tag = f"R:_core.Tag.__copy__:path{pi}"
+        tag = f"R:{short}:path{pi}"
         where = c.name
         if p.outcome != "return" or not isinstance(p.value, PyRec):
-            obs.append(Obligation(f"{tag}.result", p.pc, z3.BoolVal(False), where, "R", "returns a Tag object"))
+            obs.append(Obligation(f"{tag}.result", p.pc, z3.BoolVal(False), where, "R", f"returns a {cls} object"))
             continue
         r = p.value
-        obs.append(Obligation(f"F:_core.Tag.__copy__:path{pi}.fresh-object", p.pc, z3.BoolVal(bool(r.fresh) and r is not p.env.get("self")), where, "F", "the result is a newly allocated object"))
-        obs.append(Obligation(f"{tag}.class", p.pc, z3.BoolVal(r.cls == "Tag"), where, "R", "same class as the original"))
+        obs.append(Obligation(f"F:{short}:path{pi}.fresh-object", p.pc, z3.BoolVal(bool(r.fresh) and r is not p.env.get("self")), where, "F", "the result is a newly allocated object"))
+        obs.append(Obligation(f"{tag}.class", p.pc, z3.BoolVal(r.cls == cls), where, "R", "same class as the original"))
         obs.append(Obligation(f"{tag}.fields", p.pc, z3.BoolVal(set(r.fields) == set(fields)), where, "R", f"same instance fields ({sorted(r.fields)})"))
         for f, v0 in fields.items():
             v1 = r.fields.get(f)
@@ -85,9 +99,9 @@ def copy_harness(I, c):
             else:
                 obs.append(Obligation(f"{tag}.field[{f}]", p.pc, v1.t == v0.t, where, "R", f"copy.{f} == self.{f} (structurally)"))
             if isinstance(v0, SAdt):
-                obs.append(Obligation(f"F:_core.Tag.__copy__:path{pi}.fresh[{f}]", p.pc, z3.BoolVal(bool(getattr(v1, "fresh", False))), where, "F",
+                obs.append(Obligation(f"F:{short}:path{pi}.fresh[{f}]", p.pc, z3.BoolVal(bool(getattr(v1, "fresh", False))), where, "F",
                                       f"copy.{f} is a newly allocated {v0.pyclass}, not shared with the original"))
         orig = p.env.get("self")
         same = isinstance(orig, PyRec) and all(orig.fields.get(f) is fields[f] for f in fields)
-        obs.append(Obligation(f"F:_core.Tag.__copy__:path{pi}.original-untouched", p.pc, z3.BoolVal(bool(same)), where, "F", "no field of the original is reassigned"))
+        obs.append(Obligation(f"F:{short}:path{pi}.original-untouched", p.pc, z3.BoolVal(bool(same)), where, "F", "no field of the original is reassigned"))
     return obs
